@@ -199,7 +199,10 @@ def primitive_equivariance_contract(en: E.Engine, moist=False, method='explicit_
                                            'valid' if ok else 'invalid', back_end='multilinear-normal-form', detail=why))
 
 
-def shallow_water_equivariance_contract(en: E.Engine):
+REFPOT = z3.Const('reference_potential', Fld)
+
+
+def shallow_water_equivariance_contract(en: E.Engine, method='explicit_terms'):
   W._neg_fix(en)
   from dinosaur import shallow_water as sw
   g, r = _grid(en)
@@ -207,11 +210,11 @@ def shallow_water_equivariance_contract(en: E.Engine):
   names = ['zeta', 'delta', 'phi']
 
   def run(d, zsign, oro):
-    self = E.Obj(class_ref=sw.ShallowWaterEquations, coords=E.Obj(horizontal=g), orography=oro, coriolis_parameter=W.CORIOLIS,
+    self = E.Obj(class_ref=sw.ShallowWaterEquations, coords=E.Obj(horizontal=g), orography=oro, coriolis_parameter=W.CORIOLIS, ref_potential=REFPOT,
                  density_ratios=z3.Const('density_ratios', z3.DeclareSort('LayerMatrix')))
-    kind, out = en.invoke(en.getattr(self, 'explicit_terms'), E.Obj(vorticity=W.NEG(d['zeta']) if zsign < 0 else d['zeta'], divergence=d['delta'], potential=d['phi']))
+    kind, out = en.invoke(en.getattr(self, method), E.Obj(vorticity=W.NEG(d['zeta']) if zsign < 0 else d['zeta'], divergence=d['delta'], potential=d['phi']))
     if kind == 'raise':
-      raise E.Unsupported(f'explicit_terms raised {out}')
+      raise E.Unsupported(f'{method} raised {out}')
     return out
   en.cover('requires: radius > 0')
   x = {n: C(n) for n in names}
@@ -222,13 +225,13 @@ def shallow_water_equivariance_contract(en: E.Engine):
     oro_t = C(pre + 'orography')
     ftx = run(tx, zsign, oro_t)
     atom_map = {n: tx[n] for n in names}
-    atom_map.update({'orography': oro_t, 'coriolis_parameter': coriolis_img, 'sec2_lat': W.SEC2F})
+    atom_map.update({'orography': oro_t, 'coriolis_parameter': coriolis_img, 'sec2_lat': W.SEC2F, 'reference_potential': REFPOT})
     for f in ('vorticity', 'divergence', 'potential'):
       img = ML.transform(getattr(fx, f), atom_map, op_sign, W.NEG)
       if f == 'vorticity' and zsign < 0:
         img = W.NEG(img)
       ok, why = alg.equal(getattr(ftx, f), img)
-      en.results.append(E.ObligationResult(f'shallow water, {sym}: explicit_terms(T x).{f} == T explicit_terms(x).{f}', 'valid' if ok else 'invalid',
+      en.results.append(E.ObligationResult(f'shallow water, {sym}: {method}(T x).{f} == T {method}(x).{f}', 'valid' if ok else 'invalid',
                                            back_end='multilinear-normal-form', detail=why))
 
 
@@ -342,12 +345,12 @@ def dimension_contract(en: E.Engine, which='dry', method='explicit_terms'):
   per_time = lambda d: _dmul(d, (0, -1, 0))
   if which == 'shallow':
     from dinosaur import shallow_water as sw
-    self = E.Obj(class_ref=sw.ShallowWaterEquations, coords=E.Obj(horizontal=g), orography=W.ORO, coriolis_parameter=W.CORIOLIS,
+    self = E.Obj(class_ref=sw.ShallowWaterEquations, coords=E.Obj(horizontal=g), orography=W.ORO, coriolis_parameter=W.CORIOLIS, ref_potential=REFPOT,
                  density_ratios=z3.Const('density_ratios', z3.DeclareSort('LayerMatrix')))
-    kind, out = en.invoke(en.getattr(self, 'explicit_terms'), E.Obj(vorticity=C('zeta'), divergence=C('delta'), potential=C('phi')))
+    kind, out = en.invoke(en.getattr(self, method), E.Obj(vorticity=C('zeta'), divergence=C('delta'), potential=C('phi')))
     if kind == 'raise':
-      raise E.Unsupported(f'explicit_terms raised {out}')
-    dims = dict(ATOM_DIMS, orography=(2, -2, 0))            # shallow water: the orography is a geopotential
+      raise E.Unsupported(f'{method} raised {out}')
+    dims = dict(ATOM_DIMS, orography=(2, -2, 0), reference_potential=(2, -2, 0))            # shallow water: the orography is a geopotential
     fields = [('vorticity', out.vorticity, ATOM_DIMS['zeta']), ('divergence', out.divergence, ATOM_DIMS['delta']), ('potential', out.potential, ATOM_DIMS['phi'])]
   else:
     moist = which == 'moist'
@@ -396,6 +399,8 @@ def dimension_clauses():
              [P + 'MoistPrimitiveEquations.explicit_terms'], rc(dimension_contract, 5, which='moist'), group='pyvc'),
       Clause('smt:shallow-water explicit tendencies are dimensionally homogeneous ([field] / time) as operator expressions (all fields, sizes)', 'smt',
              ['dinosaur.shallow_water.ShallowWaterEquations.explicit_terms'], rc(dimension_contract, 3, which='shallow'), group='pyvc'),
+      Clause('smt:shallow-water implicit tendencies are dimensionally homogeneous ([field] / time) as operator expressions (all fields, sizes)', 'smt',
+             ['dinosaur.shallow_water.ShallowWaterEquations.implicit_terms'], rc(dimension_contract, 3, which='shallow', method='implicit_terms'), group='pyvc'),
       Clause('canary:primitive divergence tendency homogeneous with the orography as a geopotential must fail', 'smt', [P + 'PrimitiveEquations.orography_tendency'],
              rc(dimension_canary, 1), canary=True, group='pyvc'),
   ]
@@ -434,5 +439,7 @@ def clauses():
              rc(primitive_equivariance_contract, 10, moist=True), group='pyvc'),
       Clause('smt:ShallowWaterEquations.explicit_terms equivariant under the equatorial mirror and under rotations as an operator expression (all fields, sizes, layer counts)', 'smt',
              ['dinosaur.shallow_water.ShallowWaterEquations.explicit_terms'], rc(shallow_water_equivariance_contract, 6), group='pyvc'),
+      Clause('smt:ShallowWaterEquations.implicit_terms equivariant under the equatorial mirror and under rotations as an operator expression (all fields, sizes, layer counts)', 'smt',
+             ['dinosaur.shallow_water.ShallowWaterEquations.implicit_terms'], rc(shallow_water_equivariance_contract, 6, method='implicit_terms'), group='pyvc'),
       Clause('canary:mirror equivariance with an even Coriolis parameter must fail', 'smt', [P + 'PrimitiveEquations.explicit_terms'], rc(canary_contract, 1), canary=True, group='pyvc'),
   ]
